@@ -1246,6 +1246,7 @@ static void vbi_proxyd_stop_acq_thread( PROXY_DEV * p_proxy_dev )
          /* dirty hack: force to wake up by closing the file handle */
          /* (last resort: the device is of no use any more to a thread started afterwards) */
          vbi_fd = vbi_capture_fd(p_proxy_dev->p_capture);
+         VERIF_TRACE("\"e\":\"devclosed\",\"fd\":%d", vbi_fd);
          close(vbi_fd);
          dprintf(DBG_MSG, "stop_acq_thread: thread did not exit (%d): closed VBI filehandle %d\n", ret, vbi_fd);
 
